@@ -510,6 +510,10 @@ func main() {
 		for i := 0; i < nFaults; i++ {
 			cases = append(cases, Case{Kind: "faults", Scen: genFaults(rng.Fork(), i)})
 		}
+		// one relay with a large population (the only scenario of its size: one child, so the tier stays in budget)
+		pr := rng.Fork()
+		cases = append(cases, Case{Kind: "faults", Scen: &Scenario{Kind: "faults", BufferSize: 8,
+			Steps: []Step{{K: "population", Msgs: pr.Range(1010, 1100)}, {K: faultKinds[pr.Intn(7)]}}}})
 		for i := 0; i < nAPI; i++ {
 			cases = append(cases, Case{Kind: "api", Scen: genAPI(rng.Fork(), i)})
 		}
